@@ -21,6 +21,8 @@ pub struct Gen<'t, 'a> {
     pub o: SynOpts,
     pub counter: usize,
     pub rules: Vec<String>,
+    /// per rule: user variables its bindings refer to
+    pub rule_refs: Vec<Vec<String>>,
     pub features: Vec<&'static str>,
 }
 
@@ -34,6 +36,10 @@ impl<'t, 'a> Gen<'t, 'a> {
         VAR_POOL[self.t.below(n)].to_string()
     }
     fn value(&mut self, in_rule: bool) -> Val {
+        if self.t.chance(8) {
+            // nothing but one reference: the whole text comes from elsewhere
+            return vec![Piece::Var(self.var_name())];
+        }
         let n = self.t.below(4) + if in_rule { 1 } else { 0 };
         let mut v: Val = vec![];
         for _ in 0..n {
@@ -147,13 +153,25 @@ impl<'t, 'a> Gen<'t, 'a> {
             let j = self.t.below(i + 1);
             b.swap(i, j);
         }
+        let mut refs: Vec<String> = vec![];
+        for (_, v) in &b {
+            for p in v {
+                if let Piece::Var(x) = p {
+                    if !["in", "out", "in_newline", "out_newline"].contains(&x.as_str()) && !refs.contains(x) {
+                        refs.push(x.clone());
+                    }
+                }
+            }
+        }
+        self.rule_refs.push(refs);
         Stmt::Rule(name, b)
     }
     fn build(&mut self) -> Stmt {
         let no = 1 + if self.t.chance(35) { 1 + self.t.below(2) } else { 0 };
         let outs: Vec<PathSpec> = (0..no).map(|_| self.path(true)).collect();
         let nexp_outs = 1 + self.t.below(no);
-        let rule = if self.rules.is_empty() || self.t.chance(12) { "phony".to_string() } else { self.rules[self.t.below(self.rules.len())].clone() };
+        let ri = if self.rules.is_empty() || self.t.chance(12) { None } else { Some(self.t.below(self.rules.len())) };
+        let rule = ri.map(|i| self.rules[i].clone()).unwrap_or_else(|| "phony".to_string());
         let mut ins: [Vec<PathSpec>; 4] = Default::default();
         for k in 0..4 {
             let pct = [75, 35, 30, 20][k];
@@ -163,7 +181,18 @@ impl<'t, 'a> Gen<'t, 'a> {
             }
         }
         let nb = if self.t.chance(if self.o.vars_heavy { 60 } else { 30 }) { 1 + self.t.below(3) } else { 0 };
-        let binds = self.binds(nb, true);
+        let mut binds = self.binds(nb, true);
+        if let Some(i) = ri {
+            // what the rule refers to, supplied by the build block as a bare reference to something else
+            if !self.rule_refs[i].is_empty() && self.t.chance(20) {
+                let k = self.t.below(self.rule_refs[i].len());
+                let name = self.rule_refs[i][k].clone();
+                let target = self.var_name();
+                self.features.push("build-level-indirection");
+                let at = self.t.below(binds.len() + 1);
+                binds.insert(at, (name, vec![Piece::Var(target)]));
+            }
+        }
         Stmt::Build(BuildStmt { outs, nexp_outs, rule, ins, binds })
     }
     fn stmts(&mut self, n: usize, depth: usize, files: &mut Vec<MFile>) -> Vec<Stmt> {
